@@ -21,7 +21,22 @@ about Model/SlotBelt.lean:
   they touch" has no counterpart in a model without positions: items that have reached the exit all sit
   in `ready`; stated as such, not claimed beyond that.
 
-CONTINUOUS conveyor: covered by Model/CBelt.lean when present (see MANIFEST.json for what is claimed).
+CONTINUOUS conveyor (Model/CBelt.lean, after the repairs D10 D11c D25 D26; lock-step family `cbelt`).
+Proved:
+* `cbelt_nonacc_no_admission` (every state): a non-accumulating belt with an item at its exit grants no space
+  reservation — whatever else holds; `cbelt_acc_admission_ignores_exit`: on an accumulating belt the admission test does
+  not look at the exit at all (room + nobody entering + spacing against the last moving item).
+* `cbelt_stop_interrupts_every_item` (every state): when the state machine enters STALLED_NONACCUMULATING from a
+  running state, an Interruption is scheduled, in that very step and for the current instant, for every item on the belt
+  that has a live move process.
+* `cbelt_interrupt_keeps_remaining` / `cbelt_resume_exact` (all reachable states): an interrupted item waits with
+  exactly the travel it had left (stopped-since + remaining = entry + earlier interruptions + target of its phase), so on
+  release it resumes from where it stopped; with `C12.cbelt_travel_exact`: it arrives exactly (time stopped) later.
+* `cbelt_cancel_stall_counterexample` (kernel-checked, known finding KF-D27): a head item whose granted retrieval is
+  cancelled waits unreserved while the non-accumulating belt keeps running and the next item reaches the exit.
+NOT proved (lock-step + judge only): the accumulating plan (items advance until they touch the item ahead, no
+  overlap, no overtaking) — `_get_belt_pattern`, the gap-based delays and `handle_new_item_during_interruption` are in
+  the model and compared event by event with the code, but no theorem about positions is stated.
 -/
 import FsVerif.Proofs.SlotBelt3
 import FsVerif.Props.C12
@@ -72,5 +87,102 @@ theorem slot_admission_rule (s : SlotBelt) (t : Tok) (q : List Tok) (hq : s.putQ
       by_cases h1 : s.items.length + s.ready.length < s.cfg.cap <;> by_cases h2 : e.entry + s.cfg.delay ≤ s.now <;>
         simp [level, h1, h2, hres]
   | cons a as => simp [hres]
+
+/-! ## continuous conveyor -/
+
+/-- a non-accumulating belt with an item waiting at its exit grants nothing (any state) -/
+theorem cbelt_nonacc_no_admission (s : CBelt) (hacc : s.cfg.acc = false) (hr : s.ready ≠ []) (hg : s.gaveUp = false) :
+    s.trigPut.putRes = s.putRes ∧ (s.trigPut.gaveUp = false → s.trigPut.putQ = s.putQ) := by
+  have hre : s.ready.isEmpty = false := by cases h : s.ready <;> simp_all
+  unfold CBelt.trigPut
+  split
+  · exact ⟨rfl, fun _ => rfl⟩
+  · have had : s.admits = some false ∨ s.admits = none := by
+      unfold CBelt.admits
+      split
+      · exact Or.inl rfl
+      · split
+        · split
+          · simp [hacc, hre]
+          · exact Or.inl rfl
+        · simp [hacc, hre]
+    rcases had with had | had
+    · rw [had]; exact ⟨rfl, fun _ => rfl⟩
+    · rw [had]; exact ⟨rfl, fun hc => by simp [CBelt.giveUp] at hc⟩
+
+theorem mem_foldl_interrupt (l : List CItem) : ∀ (s : CBelt) (it : CItem) (q : Nat), it ∈ l →
+    CBelt.dictGet s.activeMove it.item.id = some q →
+    ∃ ev ∈ (l.foldl (fun s it => s.interruptItem it.item.id) s).queue, ev.kind = .intr (.move q) ∧ ev.time = s.now ∧ ev.urgent = true := by
+  induction l with
+  | nil => intro s it q h; cases h
+  | cons x xs ih =>
+    intro s it q hit hq
+    simp only [List.foldl_cons]
+    have hfr := CBelt.Fr.foldl (fun s (it : CItem) => s.interruptItem it.item.id) (fun s a => CBelt.Fr.interruptItem s _) xs (s.interruptItem x.item.id)
+    rcases List.mem_cons.mp hit with rfl | hit
+    · -- the event for this item is scheduled now and kept by the rest of the loop
+      have : ∃ ev ∈ (s.interruptItem it.item.id).queue, ev.kind = .intr (.move q) ∧ ev.time = s.now ∧ ev.urgent = true := by
+        unfold CBelt.interruptItem
+        rw [hq]
+        exact ⟨_, CBelt.mem_insCEv.mpr (Or.inl rfl), rfl, rfl, rfl⟩
+      obtain ⟨ev, hev, h1⟩ := this
+      exact ⟨ev, hfr.qOld ev hev, h1⟩
+    · have hsame : (s.interruptItem x.item.id).activeMove = s.activeMove := by
+        unfold CBelt.interruptItem; split <;> rfl
+      have hnow : (s.interruptItem x.item.id).now = s.now := (CBelt.Fr.interruptItem s _).now
+      obtain ⟨ev, hev, h1, h2, h3⟩ := ih (s.interruptItem x.item.id) it q hit (by rw [hsame]; exact hq)
+      exact ⟨ev, hev, h1, by rw [h2, hnow], h3⟩
+
+/-- entering the stopped state of a non-accumulating belt interrupts every item that is travelling -/
+theorem cbelt_stop_interrupts_every_item (s : CBelt) (hacc : s.cfg.acc = false) (hst : s.st.stalled = false) :
+    ∀ it ∈ s.items, ∀ q, CBelt.dictGet s.activeMove it.item.id = some q →
+      ∃ ev ∈ (s.setState .stalledNon).queue, ev.kind = .intr (.move q) ∧ ev.time = s.now ∧ ev.urgent = true := by
+  intro it hit q hq
+  have h1 : (CState.stalledNon).stalled = true := rfl
+  have hne : s.items.isEmpty = false := by cases h : s.items <;> simp_all
+  have key : s.setState .stalledNon =
+      s.items.foldl (fun s it => s.interruptItem it.item.id) ({ s with st := .stalledNon, noacc := true } : CBelt) := by
+    unfold CBelt.setState
+    simp only [hst, h1, hacc, Bool.not_false, Bool.and_self, if_true]
+    unfold CBelt.selectiveInterrupt
+    simp only [hne, Bool.false_eq_true, if_false, if_true]
+  rw [key]
+  exact mem_foldl_interrupt s.items ({ s with st := .stalledNon, noacc := true } : CBelt) it q hit hq
+
+/-- an interrupted item waits with exactly the travel it had left; a running one is accounted for exactly -/
+theorem cbelt_resume_exact {s : CBelt} (h : C12.ReachC s) :
+    ∀ p ∈ s.procs, ∀ it ∈ s.items, it.seq = p.q →
+      (∀ ph rm ist g, p.pc = .wait ph rm ist g → it.intStart = some ist ∧ ist + rm = it.entry + it.totalInt + CBelt.target s.cfg ph) ∧
+      (∀ ph st rm u, p.pc = .run ph st rm u → it.intStart = none ∧ st + rm = it.entry + it.totalInt + CBelt.target s.cfg ph) := by
+  intro p hp it hit hs
+  have := (C12.reachC_ti h).pcOK p hp (by simp) it hit hs
+  unfold CBelt.PcOK at this
+  constructor
+  · intro ph rm ist g hpc; rw [hpc] at this; exact ⟨this.1, this.2.1⟩
+  · intro ph st rm u hpc; rw [hpc] at this; exact ⟨this.1, this.2.1⟩
+
+/-- the step that interrupts a running item: what is left is what was left -/
+theorem cbelt_interrupt_keeps_remaining (s : CBelt) (q : Nat) (p : MProc) (ph st rm u : Nat)
+    (hp : s.procs.find? (fun p => p.q == q) = some p) (hpc : p.pc = .run ph st rm u) :
+    ∀ p' ∈ (s.onInterrupt (.move q)).procs, p'.q = q → p'.pc = .wait ph (rm - (s.now - st)) s.now s.reGen := by
+  unfold CBelt.onInterrupt
+  simp only [hp, hpc]
+  intro p' hp' hq'
+  simp only [CBelt.setProc, CBelt.setItem] at hp'
+  obtain ⟨p0, hp0, rfl⟩ := List.mem_map.mp hp'
+  by_cases h0 : (p0.q == q) = true
+  · simp only [h0, if_true]
+  · simp only [h0] at hq' ⊢
+    exact absurd (by simpa using hq') h0
+
+/-- KF-D27 on the mirrored model: capacity 2, p1 = 2, non-accumulating.  Item 0 is at the exit at t = 4 with a granted
+    retrieval; the retrieval is cancelled at t = 6: the head now waits unreserved, yet item 1 reaches the exit at t = 8 -/
+def d27 : List CBelt.Op :=
+  [.reservePut 0, .put 0 0 { id := 0 }, .ev, .reserveGet 1, .ev, .ev, .reservePut 0, .ev, .ev, .ev, .ev,
+   .put 0 2 { id := 1 }, .ev, .ev, .ev, .ev, .cancelGet 1, .ev, .ev, .ev, .ev]
+
+theorem cbelt_cancel_stall_counterexample :
+    let s := CBelt.run (CBelt.init { cap := 2, p1 := 2, acc := false }) d27
+    s.arrivals.map (fun a => (a.q, a.t)) = [(0, 4), (1, 8)] ∧ s.getRes = [] ∧ s.ready.map (·.item.id) = [0, 1] := by decide
 
 end FsVerif.Props.C13
